@@ -146,6 +146,7 @@ where
         stdin,
         abort_at,
         global_threads,
+        model_seed: verif_rt::rng::mix(&[sched.seed, io.seed, 0x5eed]),
     };
     // KMSIM_RUN_TO_BLOCK=1: no preemption -- a task keeps running until it blocks on a
     // simulated primitive or ends.  The supervisor uses it to tell a run that is stuck for
